@@ -173,6 +173,116 @@ Theorem C06_parts_page : forall parts marker max,
 Proof. exact parts_page. Qed.
 Print Assumptions C06_parts_page.
 
+(* ---- Part 3: ListObjectVersions and ListMultipartUploads ---- *)
+
+(* specification of the version listing: exactly the rows of keys that start byte-for-byte with the
+   prefix, each either itself or rolled up into its CommonPrefix *)
+Theorem C06_versions_spec_sound_complete : forall rows prefix delim e,
+  In e (spec_ventries rows prefix delim) <->
+  exists r, In r rows /\ is_prefix prefix (vr_key r) = true /\ vclassify prefix delim r = e.
+Proof. exact spec_ventries_In. Qed.
+Print Assumptions C06_versions_spec_sound_complete.
+
+Theorem C06_uploads_spec_sound_complete : forall ups prefix delim e,
+  In e (spec_uentries ups prefix delim) <->
+  exists r, In r ups /\ is_prefix prefix (fst r) = true /\ uclassify prefix delim r = e.
+Proof. exact spec_uentries_In. Qed.
+Print Assumptions C06_uploads_spec_sound_complete.
+
+(* no (key, version) and no common prefix is listed twice *)
+Theorem C06_versions_spec_duplicate_free : forall rows ups prefix delim,
+  NoDup (spec_ventries rows prefix delim) /\ NoDup (spec_uentries ups prefix delim).
+Proof. intros. split; apply dedup_NoDup. Qed.
+Print Assumptions C06_versions_spec_duplicate_free.
+
+(* paging partitions both listings: pages of max >= 1 entries, each continued after the entry its
+   last entry names, until a page is not truncated, yield every entry exactly once, in order *)
+Theorem C06_versions_paging_partition : forall rows prefix delim max,
+  1 <= max ->
+  let l := spec_ventries rows prefix delim in
+  follow_ident ventry_eqb (S (length l)) l None max = l.
+Proof. intros rows prefix delim max Hm. cbn zeta. apply ident_paging_partition; [apply dedup_NoDup | exact Hm]. Qed.
+Print Assumptions C06_versions_paging_partition.
+
+Theorem C06_uploads_paging_partition : forall ups prefix delim max,
+  1 <= max ->
+  let l := spec_uentries ups prefix delim in
+  follow_ident ventry_eqb (S (length l)) l None max = l.
+Proof. intros ups prefix delim max Hm. cbn zeta. apply ident_paging_partition; [apply dedup_NoDup | exact Hm]. Qed.
+Print Assumptions C06_uploads_paging_partition.
+
+(* the next marker of an entry names that entry *)
+Theorem C06_version_marker_names_entry : forall e,
+  vmarks (fst (vnext e)) (snd (vnext e)) e = true.
+Proof. intros [k v d|p]; cbn; rewrite ?bytes_eqb_refl; reflexivity. Qed.
+Print Assumptions C06_version_marker_names_entry.
+
+Definition ventry_items (l : list ventry) : list ventry :=
+  filter (fun e => match e with VCP _ => false | _ => true end) l.
+Definition ventry_cps (l : list ventry) : list bytes :=
+  flat_map (fun e => match e with VCP p => [p] | _ => [] end) l.
+
+(* the property for ListObjectVersions as served by pithos (faithful model of the SQL query, the entity
+   loop and its next markers, followed by a client), for every write history *)
+Definition C06_versions_full : Prop := forall ops prefix delim max,
+  1 <= max ->
+  let rows := fst (run_history 0 ops [] []) in
+  let pages := versions_follow (S (hist_cap ops)) rows prefix delim None max in
+  let expected := spec_ventries rows prefix delim in
+  flat_map vres_entries pages = ventry_items expected /\ flat_map v_cps pages = ventry_cps expected.
+
+(* witness (finding C06-null-version-order): PUT a, PUT a (versioned), suspend, PUT a: the null version
+   is the newest and must be listed first; pithos lists it last *)
+Theorem C06_versions_full_refuted_null_order : ~ C06_versions_full.
+Proof.
+  intros H. specialize (H [HP B"a"; HP B"a"; HS B"a"] (@nil byte) (@nil byte) 5 ltac:(lia)).
+  vm_compute in H. destruct H; discriminate.
+Qed.
+Print Assumptions C06_versions_full_refuted_null_order.
+
+(* witness (finding C06-like-prefix, versions): prefix "a_" lists the versions of "Ab" and "ab" *)
+Theorem C06_versions_full_refuted_like : ~ C06_versions_full.
+Proof.
+  intros H. specialize (H [HP B"Ab"; HP B"ab"] B"a_" (@nil byte) 5 ltac:(lia)).
+  vm_compute in H. destruct H; discriminate.
+Qed.
+Print Assumptions C06_versions_full_refuted_like.
+
+Example C06_witness_null_order :
+  let rows := fst (run_history 0 [HP B"a"; HP B"a"; HS B"a"] [] []) in
+  flat_map vres_entries (versions_follow 9 rows [] [] None 5)
+    = [VEnt B"a" B"v001" false; VEnt B"a" B"v000" false; VEnt B"a" B"null" false] /\
+  spec_ventries rows [] [] = [VEnt B"a" B"null" false; VEnt B"a" B"v001" false; VEnt B"a" B"v000" false].
+Proof. vm_compute. split; reflexivity. Qed.
+
+(* versions written in non-key order with delete markers and a delimiter: here model = specification *)
+Example C06_versions_ex_agree :
+  let ops := [HP B"b"; HP B"a/1"; HP B"b"; HD B"a/2"; HP B"a/1"; HP B"c"] in
+  let rows := fst (run_history 0 ops [] []) in
+  let pages := versions_follow (S (hist_cap ops)) rows [] B"/" None 1 in
+  length pages = 4 /\
+  flat_map vres_entries pages = ventry_items (spec_ventries rows [] B"/") /\
+  flat_map v_cps pages = ventry_cps (spec_ventries rows [] B"/").
+Proof. vm_compute. repeat split; reflexivity. Qed.
+
+(* the same for ListMultipartUploads over HTTP *)
+Definition C06_uploads_full : Prop := forall ops prefix delim max,
+  1 <= max ->
+  let ups := snd (run_history 0 ops [] []) in
+  let pages := uploads_follow (hist_cap ops) ups prefix delim None None max in
+  let expected := spec_uentries ups prefix delim in
+  map (fun r => VEnt (fst r) (snd r) false) (flat_map uh_ups pages) = ventry_items expected /\
+  flat_map uh_cps pages = ventry_cps expected.
+
+(* witness (finding C06-delimiter-paging, uploads): uploads a/1, b, c; delimiter "/"; max-uploads 1:
+   the common prefix "a/" is never returned *)
+Theorem C06_uploads_full_refuted_delimiter : ~ C06_uploads_full.
+Proof.
+  intros H. specialize (H [HM B"a/1"; HM B"b"; HM B"c"] (@nil byte) B"/" 1 ltac:(lia)).
+  vm_compute in H. destruct H; discriminate.
+Qed.
+Print Assumptions C06_uploads_full_refuted_delimiter.
+
 (* non-vacuity of the partial theorem's hypotheses: a mixed-case key set, a prefix that is safe for it,
    three pages *)
 Example C06_partial_nonvacuous :
